@@ -46,6 +46,39 @@ func runWithOpts(src []byte, d, t, st bool) (o obsRun) {
 	return o
 }
 
+// failWriter accepts limit bytes and fails every write after that (a closed pipe, a full disk)
+type failWriter struct{ limit, n int }
+
+func (w *failWriter) Write(p []byte) (int, error) {
+	if w.n+len(p) > w.limit {
+		k := w.limit - w.n
+		if k < 0 {
+			k = 0
+		}
+		w.n += k
+		return k, fmt.Errorf("write failed")
+	}
+	w.n += len(p)
+	return len(p), nil
+}
+
+// runFailing: the same call with an output writer that fails after limit bytes; what the call returns must not depend on the options
+func runFailing(src []byte, d, t, st bool, limit int) (o obsRun) {
+	defer func() {
+		if r := recover(); r != nil {
+			o.Panic = fmt.Sprint(r)
+		}
+	}()
+	var lg bytes.Buffer
+	res, bind, err := bcl.Interpret(src, bcl.OptDisasm(d), bcl.OptTrace(t), bcl.OptStats(st), bcl.OptOutput(&failWriter{limit: limit}), bcl.OptLogger(&lg))
+	if err != nil {
+		o.Err = err.Error()
+	}
+	o.Log = lg.String()
+	o.Res = canonBlocks(res) + " / " + canonBinding(bind)
+	return o
+}
+
 // splitObs separates the output writer's text into the program's own lines and the observation events
 func splitObs(out string) (own string, events []map[string]any, bad string) {
 	lines := strings.Split(out, "\n")
@@ -194,6 +227,27 @@ func driveObs(args []string) int {
 			}
 			if k == 7 {
 				allOn = o
+			}
+		}
+		// an output writer that fails (at once, after a few bytes): error, diagnostics, blocks and binding are still those of the
+		// plain run with the same writer, whatever is switched on
+		for _, limit := range []int{0, 9} {
+			fb := runFailing(src, false, false, false, limit)
+			if fb.Panic != "" {
+				break // C06's subject
+			}
+			for k := 1; k < 8; k++ {
+				d, t, st := k&1 != 0, k&2 != 0, k&4 != 0
+				o := runFailing(src, d, t, st, limit)
+				name := fmt.Sprintf("disasm=%v trace=%v stats=%v and an output writer failing after %d bytes", d, t, st, limit)
+				if o.Panic != "" {
+					s.bad("panic with "+name+": "+o.Panic, "obs:panic-failing-writer", raw, o, true)
+					return
+				}
+				if o.Err != fb.Err || o.Log != fb.Log || o.Res != fb.Res {
+					s.bad("error, diagnostics, blocks or binding change with "+name, "obs:changes-result-failing-writer", raw, map[string]any{"plain": fb, "with": o}, true)
+					return
+				}
 			}
 		}
 		// parsing and executing as two calls with two different output writers: where the program's own lines go must not depend
